@@ -89,7 +89,7 @@ pub fn run(ctx: &mut Ctx) {
         "per-credential model: below the maximum each success reports previous+1 and that value is what the store then holds; at the maximum the reported and stored value is not smaller and there is no panic".into(),
         "credentials without counter: report 0, record unchanged, no update call (reference store log)".into(),
     ];
-    let n = ctx.tier.pick(1_500u32, 30_000u32);
+    let n = ctx.tier.pick(1_500u32, 300_000u32);
     match search(ctx, 8, n, strategy(), check) {
         Search::Pass => {}
         Search::Fail(h, msg) => ctx.violation("histories", json!(h), &msg),
